@@ -799,6 +799,15 @@ func canon(k int, v uint64) lenForm { return lenForm{} }
 
 func checkEnc(g *vlib.Rng) {
 	t := genTx(g, false)
+	if t.hasWit && g.Chance(1, 6) && len(t.wit) > 0 { // hand-built SegWit whose length differs from the number of inputs
+		t.wit = t.wit[:len(t.wit)-1]
+	}
+	checkEncTx(t, "enc")
+}
+
+// checkEncTx: the fields of t as a hand-built btc.Tx through SerializeNew / Serialize, against the BIP144 serialisation of
+// the same fields and against the model's encodeTx / encodeTxNoWit
+func checkEncTx(t refTx, kind string) {
 	tx := new(btc.Tx)
 	tx.Version, tx.Lock_time = t.ver, t.lock
 	var sb strings.Builder
@@ -821,9 +830,6 @@ func checkEnc(g *vlib.Rng) {
 	}
 	if t.hasWit {
 		wit := t.wit
-		if g.Chance(1, 6) && len(wit) > 0 { // hand-built SegWit whose length differs from the number of inputs
-			wit = wit[:len(wit)-1]
-		}
 		tx.SegWit = make([][][]byte, 0)
 		fmt.Fprintf(&sb, " %d", len(wit))
 		for _, st := range wit {
@@ -833,7 +839,6 @@ func checkEnc(g *vlib.Rng) {
 				fmt.Fprintf(&sb, " %s", vlib.Hex(it))
 			}
 		}
-		t.wit = wit
 	}
 	var s1, s2 []byte
 	perr := ""
@@ -845,7 +850,7 @@ func checkEnc(g *vlib.Rng) {
 		}()
 		s1, s2 = tx.SerializeNew(), tx.Serialize()
 	}()
-	r.Eval("enc:segwit="+sw, "enc"+sb.String())
+	r.Eval(kind+":segwit="+sw, "enc"+sb.String())
 	if perr != "" {
 		r.PropFail("enc-panic", "Serialize panicked: "+perr, map[string]interface{}{"op": "enc", "line": sb.String()})
 		return
@@ -1390,6 +1395,9 @@ func main() {
 	}
 
 	phase("valid")
+	// 2b. one length field at the ends of / inside the CompactSize ranges, incl. the 5-byte one (boundary.go)
+	boundaryStream(g)
+	phase("ranges")
 	// 3. EVERY truncation and every position mutated, of a sample (small ones exhaustively; of larger ones every
 	// truncation point near a field boundary is still hit because all prefixes are taken, mutations at 150 positions)
 	nsample := r.N(14, 150)
@@ -1550,6 +1558,7 @@ func main() {
 	phase("blocks")
 	// 8b. the exported helpers called directly on short / malformed buffers (direct.go)
 	directStream(g)
+	writersStream(g)
 	phase("direct-helpers")
 	// 9. one Block object through histories of calls
 	objStream(g)
@@ -1568,6 +1577,55 @@ func main() {
 	}
 	r.Finish("corpus (defect witnesses of F4, boundary shapes, Core's tx_valid/tx_invalid vectors from /repo/lib/test); BIP144 encodings of random transactions (0..300 inputs/outputs/witness items, scripts 0..65537 bytes, CompactSize boundaries 252..257/65535..65537) with and without trailing bytes; EVERY truncation and every byte position mutated 6-9 ways of a sample; every length field of a sample in each of the four CompactSize forms and with huge values; marker/flag combinations; emptied witnesses; unstructured bytes; structured transactions through both serialisers; random blocks (header Merkle field = root of the txids; also random / bit-flipped field, CVE-2012-2459 duplicated tails, dropped and swapped transactions) with trailing bytes, truncations, bit flips, changed count forms; histories of 1..8 calls (UpdateContent with valid / truncated / count-damaged / header-only / too-short contents, BuildTxListExt(false), BuildTxList, Clean, the client's reset) on ONE Block object. distinct = distinct input byte strings longer than 4 bytes",
 		"each byte string is run through btc.NewTx/SetHash/Serialize/SerializeNew/Weight/VSize/TxSize (blocks: NewBlock+BuildTxListExt true and false), through the Lean model (oracle_c09) and through an independent BIP144/Core reference parser; the property predicate (no panic; accepted iff the reference accepts; re-encoding = bytes consumed; txid/wtxid = double-SHA256 of the stripped/full serialisation; Size/NoWitSize/Weight/VSize/BlockWeight per BIP141; TxSize = consumed and never past the buffer; allocation ≤ 64·len+8192; MerkleRootMatch iff built completely, header field = reference Merkle root of the reference txids, no duplicated pair) is evaluated on the real code; for Block objects with a history: after every build the object carries exactly what a fresh Block of the bytes it holds now carries (error class, TxCount, Txs ids/sizes, BlockWeight, MerkleRootMatch), no panic, Txs[i].Hash = reference txid after BuildTxList, and every field after every call equals the stateful Lean model; model = implementation on every field is the tie for the theorems in Props/C09.lean")
+}
+
+// parseEncLine: the fields of a recorded `enc` request (see checkEncTx) back into a refTx
+func parseEncLine(line string) (t refTx, ok bool) {
+	f := strings.Fields(line)
+	p := 0
+	bad := false
+	next := func() string {
+		if p >= len(f) {
+			bad = true
+			return "0"
+		}
+		p++
+		return f[p-1]
+	}
+	num := func() uint64 {
+		v, e := strconv.ParseUint(next(), 10, 64)
+		bad = bad || e != nil
+		return v
+	}
+	if next() != "enc" {
+		return t, false
+	}
+	t.ver, t.lock = uint32(num()), uint32(num())
+	t.hasWit = next() == "1"
+	for n := num(); n > 0 && !bad; n-- {
+		var in refIn
+		in.hash = vlib.UnHex(next())
+		in.idx = uint32(num())
+		in.script = vlib.UnHex(next())
+		in.seq = uint32(num())
+		t.ins = append(t.ins, in)
+	}
+	for n := num(); n > 0 && !bad; n-- {
+		var ou refOut
+		ou.value = num()
+		ou.script = vlib.UnHex(next())
+		t.outs = append(t.outs, ou)
+	}
+	if t.hasWit {
+		for n := num(); n > 0 && !bad; n-- {
+			st := [][]byte{}
+			for k := num(); k > 0 && !bad; k-- {
+				st = append(st, vlib.UnHex(next()))
+			}
+			t.wit = append(t.wit, st)
+		}
+	}
+	return t, !bad && p == len(f)
 }
 
 func replay(path string) {
@@ -1589,8 +1647,20 @@ func replay(path string) {
 	case "obj":
 		replayObj(str("data"), str("ops"))
 	case "enc":
-		fmt.Println("replay: oracle line:", str("line"))
-		fmt.Println(o.MustAsk(str("line")))
+		if t, ok := parseEncLine(str("line")); ok {
+			checkEncTx(t, "replay")
+		} else {
+			fmt.Println("replay: cannot parse the recorded enc line")
+			os.Exit(3)
+		}
+	case "direct:CompactSize":
+		v, _ := strconv.ParseUint(str("v"), 10, 64)
+		checkWriters(v, []byte{0xaa, 0xbb})
+	case "direct:VULe":
+		b := vlib.UnHex(str("raw"))
+		x, n := btc.VULe(b)
+		fmt.Printf("replay: btc.VULe(%s) = %d %d, model vule = %s\n", short(b), x, n, o.MustAsk("vule "+vlib.Hex(b)))
+		r.PropFail("direct-vule", "replayed: compare the line above with the CompactSize at the start of the bytes", map[string]interface{}{"op": "direct:VULe", "raw": vlib.Hex(b)})
 	default:
 		fmt.Println("replay: nothing to re-run for this file (proof-level violation); see its 'broken' field")
 	}
